@@ -177,7 +177,7 @@ fn iter_builders(r: &mut Rng, m: &Model, o: &mut CaseOut) {
         let wloop: Vec<BTreeMap<usize, isize>> = bad.iter().map(|s| s.iter().map(|&v| (v, -2)).collect()).collect();
         let _ = o.must_panic("AdjacencyListWeighted::from(rows):self-loop-accepted", || format!("row {u} contains {u}"), || AdjacencyListWeighted::<isize>::from(wloop.clone()));
         let mut bad = rows.clone();
-        let far = n + r.below(3);
+        let far = *r.pick(&[n, n + 1, n + 2, 2 * n + 1, n + 64, 1 << 20, usize::MAX - 1, usize::MAX]);
         bad[u].insert(far); // head outside
         let _ = o.must_panic("AdjacencyList::from(rows):outside-head-accepted", || format!("row {u} contains {far}, order {n}"), || AdjacencyList::from(bad.clone()));
         let _ = o.must_panic("AdjacencyMap::from(rows):outside-head-accepted", || format!("row {u} contains {far}, order {n}"), || AdjacencyMap::from(bad.clone()));
